@@ -6,4 +6,4 @@ id=$1; shift
 src=/tmp/seedwt/$id/seed_out
 dst=/verif/seeded/$id
 mkdir -p $dst; cp -r $src/* $dst/
-/verif/tools/seedtest.sh $id $dst/patch.diff "$@" 2>&1 | tee $dst/seedtest.log
+"$(dirname "$(readlink -f "$0")")"/seedtest.sh $id $dst/patch.diff "$@" 2>&1 | tee $dst/seedtest.log
